@@ -235,6 +235,14 @@ func (p *Parser) ParseRemainingExpressionWithPrecedence(left ast.Expression, pre
 		if p.PeekToken.AfterNewline && (p.PeekToken.Type == token.INCREMENT || p.PeekToken.Type == token.DECREMENT) {
 			return left
 		}
+		// An update expression (x++, x--) cannot be called or accessed:
+		// `a++` followed by `(`, `[` or `.` on the next line is a new statement
+		if _, isPostfix := left.(*ast.PostfixExpression); isPostfix {
+			switch p.PeekToken.Type {
+			case token.LPAREN, token.LBRACKET, token.DOT:
+				return left
+			}
+		}
 		// Smart semicolon insertion: prevent LPAREN and LBRACKET after newline from continuing expression
 		// https://eslint.org/docs/latest/rules/no-unexpected-multiline
 		if p.smartSemicolons && p.PeekToken.AfterNewline {
